@@ -153,23 +153,37 @@ def check_templates(fx, rep):
             continue          # thin wrapper around the shared generator
         if n['name'] not in by or not A.macros(by[n['name']][1]['body']):
             by[n['name']] = (f, n)
-    # field definitions
-    if 'generate_field_definitions' in by:
-        f, n = by['generate_field_definitions']
-        toks = ' '.join(m.get('tokens') or '' for m in A.macros(n['body']))
+    # field definitions: the function whose template builds `idl::Field::new(<name>, <Ty as Type>::TYPE, comments)` - found by what it emits, the
+    # interpolated variables are followed to their bindings whatever they are called
+    tmpl = None
+    for f, n, impl in fns:
+        for m in A.macros(n['body']):
+            mt = re.search(r'idl\s*::\s*Field\s*::\s*new\s*\(\s*#\s*(\w+)\s*,\s*<\s*#\s*(\w+)\s+as\s+#\s*\w+\s*::\s*introspect\s*::\s*Type\s*>\s*::\s*TYPE\s*,([^;]*)', m.get('tokens') or '')
+            if mt and tmpl is None:
+                tmpl = (f, n, m, mt)
+    if tmpl is not None:
+        f, n, m, mt = tmpl
         lets = {(y.get('pat') or '').replace('mut ', '').strip(): A.text(y.get('init')) for y in A.nodes(n['body']) if y.get('k') == 'let' and isinstance(y.get('init'), dict)}
-        name_src = lets.get('field_name_str', '')
-        ty_src = lets.get('field_type', '')
-        ok_name = '# field_name_str' in toks and 'to_string' in name_src and 'unraw' in name_src
-        ok_ty = bool(re.search(r'<\s*#\s*field_type\s+as\s+#\s*crate_path\s*::\s*introspect\s*::\s*Type\s*>\s*::\s*TYPE', toks)) and 'remove_lifetimes_from_type' in ty_src
-        ok_doc = 'extract_doc_comments' in ' '.join(lets.values()) and 'comment' in toks
+        name_var, ty_var, rest = mt.group(1), mt.group(2), mt.group(3)
+        name_src = lets.get(name_var, '')
+        ty_src = lets.get(ty_var, '')
+        ok_name = 'to_string' in name_src and 'unraw' in name_src
+        ok_ty = 'remove_lifetimes_from_type' in ty_src
+        cvars = re.findall(r'#\s*(\w+)', rest)
+
+        def from_docs(v, depth=0):
+            src = lets.get(v, '')
+            if 'extract_doc_comments' in src:
+                return True
+            return depth < 3 and any(from_docs(w, depth + 1) for w in re.findall(r'[A-Za-z_]\w*', src) if w in lets and w != v)
+        ok_doc = any(from_docs(v) for v in cvars)
         rep.check(ok_name, 'R16.2', 'field-template|name', '%s:%s' % (f, n.get('line')), 'a field is described under the string of its (unraw\'d) identifier',
                   'the field-description template does not use the identifier string of the field as its name (source: %s)' % name_src)
         rep.check(ok_ty, 'R16.2', 'field-template|type', '%s:%s' % (f, n.get('line')), 'the type slot is <FieldTy as Type>::TYPE after lifetime erasure',
                   'the field-description template does not describe the field type as `<FieldTy as Type>::TYPE` of the declared type')
         rep.check(ok_doc, 'R16.2', 'field-template|comments', '%s:%s' % (f, n.get('line')), 'doc comments of the field become its comments', 'doc comments are not carried into the field description')
     else:
-        rep.bad('R16.2', 'field-template|anchor', M, 'generate_field_definitions not found')
+        rep.bad('R16.2', 'field-template|anchor', M, 'no template building idl::Field::new(name, <Ty as Type>::TYPE, comments) found in the introspection derives')
     # order preservation in every generator that walks fields / variants
     n_gen = 0
     for f, n, impl in fns:
